@@ -91,10 +91,13 @@ def work(job):
     res.update(result=r, by='z3-api', time=dt, model=model, reason=reason)
     if r == 'unknown' and not expect_sat:
         sat_by = None
-        steps = [('cvc5', lambda: _cvc5(smt2, timeout_ms)),
-                 (ver + '/arith.solver=2', lambda: _solve_z3(smt2, timeout_ms, seed, True, {'arith.solver': 2})),
-                 ('z3-4.8', lambda: _z3old(smt2, timeout_ms)),
+        part = max(2000, timeout_ms // 4)
+        steps = [('cvc5', lambda: _cvc5(smt2, part)),
+                 (ver + '/arith.solver=2', lambda: _solve_z3(smt2, part, seed, True, {'arith.solver': 2})),
+                 ('z3-4.8', lambda: _z3old(smt2, part)),
                  (ver + '/full', lambda: _solve_z3(smt2, timeout_ms, seed + 1, True))]
+        if os.environ.get('VERIF_FAST_UNKNOWN'):
+            steps = steps[:1]
         for label, fn in steps:
             out = fn()
             r2, dt2 = out[0], out[1]
